@@ -26,12 +26,15 @@ package main
 //	oracle          (implementation only) a shadow map in Go (key -> name -> rule text, or absent = removed) predicts the
 //	                same observables independently of the Coq model.
 //
-// Known-finding regions the generated stream stays outside of (each has a fixed regression scenario below that runs on
+// Known-finding region the generated stream stays outside of (it has a fixed regression scenario below that runs on
 // every check and is reported with its key):
 //
 //	D8   store/load of a knowledge base that holds a removed rule (the Deleted flag is not stored)
-//	D10a a rejected rule whose expressions are new leaves orphan nodes in the working memory: the generated duplicates
-//	     use a payload that some entry of that knowledge base already has, so nothing new is interned
+//
+// Builds are transactional since the fix of D10 (KnowledgeBase.Checkpoint, engine commit 4ed034e): a rejected resource
+// adds none of its rules and leaves no node in the working memory.  The generated duplicates therefore carry any
+// payload, new expressions included, and the former witnesses of D10a / D10b are fixed regression histories that run
+// first and must pass.
 //
 // Bounded testing: the oracle is a test; the theorems are in coq/props/C16.v.
 
@@ -53,7 +56,6 @@ import (
 
 const (
 	keyC16D8   = "D8-removed-rule-active-after-load"
-	keyC16D10a = "D10a-rejected-duplicate-breaks-instances"
 	c16MaxCycle = 40
 )
 
@@ -224,11 +226,10 @@ type C16Step struct {
 // ---- the shadow: what C16 says must be there ----
 type shKB struct {
 	active map[string]C16Rule
-	tombs  int            // removed entries still held by the knowledge base
-	seen   map[int64]bool // payloads of all entries (active or removed): their expressions are in the working memory
+	tombs  int // removed entries still held by the knowledge base
 }
 
-func newShKB() *shKB { return &shKB{active: map[string]C16Rule{}, seen: map[int64]bool{}} }
+func newShKB() *shKB { return &shKB{active: map[string]C16Rule{}} }
 
 type shadow struct {
 	kbs   map[int]*shKB
@@ -397,14 +398,13 @@ func (r *c16Runner) apply(op C16Op) {
 		if st.Err != expectErr {
 			r.failf(si, "BuildRuleFromResource(%s) returned error=%v (%v); a rule name that is already in force: %v\n%s", c16Key(op.KB), st.Err, err, expectErr, b.String())
 		}
-		bp := r.lib.Library[ast.GetKnowledgeBaseKey(name, ver)]
-		for _, ru := range fresh {
-			// a rule of a rejected resource whose name was free: C16 does not say whether it is added; the shadow follows the implementation
-			if expectErr && (bp == nil || bp.RuleEntries[ru.Name] == nil) {
-				continue
+		// a resource is loaded completely or not at all
+		if !expectErr {
+			for _, ru := range fresh {
+				sk.active[ru.Name] = ru
 			}
-			sk.active[ru.Name] = ru
-			sk.seen[ru.Body.ID] = true
+		} else if len(fresh) > 0 {
+			r.stats["rejected resources holding acceptable rules"]++
 		}
 		if expectErr {
 			r.stats["rejected builds"]++
@@ -553,7 +553,6 @@ func (g *c16Gen) buildOp(sh *shadow, nKeys int) C16Op {
 	sk := sh.kbs[op.KB]
 	n := 1 + p.intn(3)
 	inRes := map[string]int64{} // name -> payload of the first rule of that name in this resource
-	seenHere := map[int64]bool{}
 	for i := 0; i < n; i++ {
 		name := pick(p, c16Names)
 		if len(inRes) > 0 && p.chance(1, 6) {
@@ -577,35 +576,12 @@ func (g *c16Gen) buildOp(sh *shadow, nKeys int) C16Op {
 		if sk != nil {
 			_, dupKB = sk.active[name]
 		}
-		var body C16Body
-		if dupRes || dupKB {
-			// rejected rule: its expressions must already be in the working memory (region D10a)
-			var cands []int64
-			for id := range seenHere {
-				cands = append(cands, id)
-			}
-			if sk != nil {
-				for id := range sk.seen {
-					if !seenHere[id] {
-						cands = append(cands, id)
-					}
-				}
-			}
-			sort.Slice(cands, func(i, j int) bool { return cands[i] < cands[j] })
-			if len(cands) == 0 {
-				continue
-			}
-			body = c16Payloads[pick(p, cands)]
-		} else {
-			body = pick(p, c16Payloads)
+		// duplicates carry any payload: the expressions of a rejected rule may be new to the working memory
+		body := pick(p, c16Payloads)
+		if !dupRes && !dupKB {
 			inRes[name] = body.ID
-			seenHere[body.ID] = true
 		}
 		op.Rules = append(op.Rules, C16Rule{Name: name, Sal: g.sal(), Body: body})
-	}
-	if len(op.Rules) == 0 {
-		body := pick(p, c16Payloads)
-		op.Rules = append(op.Rules, C16Rule{Name: pick(p, c16Names), Sal: g.sal(), Body: body})
 	}
 	return op
 }
@@ -806,10 +782,29 @@ func c16Regressions() []c16Regression {
 			{Kind: "build", KB: 0, Fact: 7, Rules: []C16Rule{r0, r1}},
 			{Kind: "removelib", KB: 0, Name: "R1", Fact: 7},
 			{Kind: "storeload", KB: 0, Fact: 7}}}},
-		// D10a: a rejected duplicate with expressions of its own leaves orphan nodes; no instance can be created any more
-		{keyC16D10a, C16Hist{Ops: []C16Op{
+	}
+}
+
+// former witnesses of D10 (fixed by engine commit 4ed034e): they run first on every check and must pass
+func c16FixedRegressions() []C16Hist {
+	r0 := C16Rule{Name: "R0", Sal: 1, Body: c16Payloads[0]}
+	return []C16Hist{
+		// D10a: a rejected duplicate with expressions of its own; instances must still be created, R0 (payload 0) stays in force
+		{Ops: []C16Op{
 			{Kind: "build", KB: 0, Fact: 7, Rules: []C16Rule{r0}},
-			{Kind: "build", KB: 0, Fact: 7, Rules: []C16Rule{{Name: "R0", Sal: 9, Body: c16Payloads[2]}}}}}},
+			{Kind: "build", KB: 0, Fact: 7, Rules: []C16Rule{{Name: "R0", Sal: 9, Body: c16Payloads[2]}}},
+			{Kind: "newinst", KB: 0, Fact: 7},
+			{Kind: "exec", Inst: 0, Fact: 7}}},
+		// D10b: a rejected resource holding a new rule R1 and a duplicate of R0, then one defining R2 twice: neither R1 nor R2 may appear
+		{Ops: []C16Op{
+			{Kind: "build", KB: 0, Fact: 7, Rules: []C16Rule{r0}},
+			{Kind: "build", KB: 0, Fact: 7, Rules: []C16Rule{{Name: "R1", Sal: 7, Body: c16Payloads[1]}, {Name: "R0", Sal: 9, Body: c16Payloads[3]}}},
+			{Kind: "build", KB: 0, Fact: 7, Rules: []C16Rule{{Name: "R2", Sal: 4, Body: c16Payloads[5]}, {Name: "R2", Sal: 3, Body: c16Payloads[6]}}},
+			{Kind: "newinst", KB: 0, Fact: 7},
+			// a rejected resource on a key that does not exist yet
+			{Kind: "build", KB: 1, Fact: 7, Rules: []C16Rule{{Name: "R3", Sal: 2, Body: c16Payloads[4]}, {Name: "R3", Sal: -2, Body: c16Payloads[7]}}},
+			{Kind: "newinst", KB: 1, Fact: 7},
+			{Kind: "build", KB: 0, Fact: 5, Rules: []C16Rule{{Name: "R1", Sal: 6, Body: c16Payloads[2]}}}}},
 	}
 }
 
@@ -828,6 +823,17 @@ func runC16Prop(seed uint64, tier string, out string) error {
 	var cases []string
 	var index []interface{}
 	distinct := map[string]bool{}
+	for _, h := range c16FixedRegressions() {
+		r := runC16Hist(h)
+		rep.Evaluations++
+		rep.count("regression scenarios of fixed findings")
+		if len(r.fails) > 0 {
+			rep.fail(r.fails[0], c16CaseRec{Hist: h})
+		}
+		id := len(index)
+		index = append(index, c16CaseRec{Hist: h})
+		cases = append(cases, c16GallinaCase(id, r.steps))
+	}
 	for _, rg := range c16Regressions() {
 		r := runC16Hist(rg.Hist)
 		rep.Evaluations++
@@ -863,7 +869,7 @@ func runC16Prop(seed uint64, tier string, out string) error {
 	}
 	rep.Cases = len(cases)
 	rep.DistinctNontrivial = len(distinct)
-	rep.Rule = "random histories of 3-14 operations (build of 1-3 rules incl. duplicates inside a resource and of earlier resources, library / instance removal, new instance, store+load, execute with actions that remove rules from the running instance) over 1-3 (name,version) keys, 4 rule names, 8 payloads, distinct saliences; after every step every key is probed through two fresh instances (Execute with listener, FetchMatchingRules) and every live instance through FetchMatchingRules; non-trivial = at least one rejected build and one removal that hit; distinct by history"
+	rep.Rule = "random histories of 3-14 operations (build of 1-3 rules incl. duplicates inside a resource and of earlier resources with expressions new to the working memory (rejected resources are rolled back), library / instance removal, new instance, store+load, execute with actions that remove rules from the running instance) over 1-3 (name,version) keys, 4 rule names, 8 payloads, distinct saliences; after every step every key is probed through two fresh instances (Execute with listener, FetchMatchingRules) and every live instance through FetchMatchingRules; non-trivial = at least one rejected build and one removal that hit; distinct by history"
 	if err := writeShards(out, "From Grule Require Import Base EngineGen EngineAbs Library CorrLibrary.", "c16_mismatches", "c16_case", cases, 16); err != nil {
 		return err
 	}
